@@ -3,7 +3,9 @@ Model of per-recipient status reporting by the outbound targets
 (`internal/smtpconn/smtpconn.go`: C.Mail, C.Rcpt, C.Rcpts;
  `internal/target/remote/remote.go`: AddRcpt, BodyNonAtomic, Close with connection pooling;
  `internal/target/smtp/smtp_downstream.go`: lmtpDelivery.AddRcpt / BodyNonAtomic;
- `internal/msgpipeline/msgpipeline.go`: statusCollector reverse translation).
+ `internal/msgpipeline/msgpipeline.go`: statusCollector reverse translation; msgpipelineDelivery.AddRcpt
+ bookkeeping (`delivery.recipients`, `originalRcpts`) and the statuses `BodyNonAtomic` generates itself:
+ `setStatusAll`, Body error of a target without per-recipient results).
 Core Lean only.
 -/
 namespace MaddyVerif.StatusKeys
@@ -165,5 +167,34 @@ look-up each. `MsgMetadata.OriginalRcpts` (shared by all of them, possibly pre-f
 the message passed before a queue) takes no part in the translation. -/
 def translateNested (outer inner : List (Nat × Nat)) (fin : Nat) : Nat :=
   translate outer (translate inner fin)
+
+/-! ### statuses the pipeline generates itself -/
+
+/-- One `msgpipelineDelivery.AddRcpt` call: the address the client supplied and the effective
+addresses the modifiers turned it into (`[client]` itself when nothing rewrote it). Nothing is assumed
+about the rewriting: two calls may produce the same effective address (two aliases of one mailbox), an
+effective address may be another call's client address (alias and the mailbox it stands for), the same
+client address may come twice. -/
+abbrev PipeRcpt := Nat × List Nat
+
+/-- `delivery.recipients`, in `AddRcpt` order: `originalTo` — the address AS SUPPLIED — once per
+effective recipient handed to the target. -/
+def pipeRecipients (rs : List PipeRcpt) : List Nat := rs.flatMap (fun r => r.2.map (fun _ => r.1))
+
+/-- `msgpipelineDelivery.originalRcpts` as `AddRcpt` fills it (`if originalTo != to`): a map, so a later
+call overwrites the entry of an earlier one (found first here). Neither injective nor total. -/
+def pipeTable (rs : List PipeRcpt) : List (Nat × Nat) :=
+  (rs.flatMap (fun r => (r.2.filter (fun x => x != r.1)).map (fun x => (x, r.1)))).reverse
+
+/-- What `BodyNonAtomic` reports when the delivery fails as a whole — `setStatusAll` after a body
+check / `applyResults` / `RewriteBody` failure, or the `Body` error of a target that has no
+per-recipient results: the error for every entry of `delivery.recipients`, handed to the caller's
+collector DIRECTLY (not through the translating `statusCollector`: these are client addresses already). -/
+def pipeGenerated (rs : List PipeRcpt) : List (Nat × Bool) := (pipeRecipients rs).map (fun c => (c, false))
+
+/-- The other path: a per-recipient target reports `res x` for every effective recipient `x`, the
+`statusCollector` translates the key through the table (ONE look-up). -/
+def pipeTranslated (rs : List PipeRcpt) (res : Nat → Bool) : List (Nat × Bool) :=
+  rs.flatMap (fun r => r.2.map (fun x => (translate (pipeTable rs) x, res x)))
 
 end MaddyVerif.StatusKeys
